@@ -284,6 +284,16 @@ def judge(tokens, views, obs, marks, unreliable=()):
                 V.append(("delivered-%d-times:%s:one-connection:%s" % (n, t.kind(), held),
                           "connection #%d read the token %d times (classes %s)" % (i, n, [c for j, _, c in seen if j == i]), t, i))
         dl = [(i, pos) for i, pos, c in seen if c == "addressed"]
+        if t.destkind == "driver" and t.mtype == 4:
+            # signal addressed to the bus: no answer; a copy at a connection without an eavesdrop rule was already
+            # reported as driver-call-delivered-to-client when its frame was read
+            reps = bus_replies[t.sender].get(t.serial, [])
+            if reps:
+                V.append(("signal-to-the-bus-answered", "a signal addressed to org.freedesktop.DBus was answered %d times" % len(reps), t, t.sender))
+            t.outcome = "driver:signal-ignored"
+            stats["outcome:" + t.outcome] += 1
+            sigs.add(("driver", "signal", t.outcome, bool(seen)))
+            continue
         if t.destkind == "driver":
             reps = bus_replies[t.sender].get(t.serial, [])
             if sv.closed_round is not None:
